@@ -36,6 +36,18 @@ def main():
         os.execve(sys.executable, [sys.executable] + sys.argv, env)
     ctx = common.Ctx(pid, a.tier, seed)
     os.chdir(os.environ.get("VERIF_TMP", "/var/tmp"))
+    # scratch files of workers that were killed (a crash under ASan is an observation, the worker cannot clean up): drop old ones
+    try:
+        import glob, time
+        now = time.time()
+        for f in glob.glob("c[0-9][0-9]*"):
+            try:
+                if os.path.isfile(f) and now - os.path.getmtime(f) > 1800:
+                    os.unlink(f)
+            except OSError:
+                pass
+    except Exception:
+        pass
     if a.replay:
         case = json.load(open(a.replay))
         rc = mod.replay(ctx, case["case"])
